@@ -35,11 +35,15 @@ V(n) ==
                       [x \in {"a", "k"} |-> Null]} ELSE {})
 
 Modes == {"default", "reset", "reuse", "rtr"}
+\* several value flags in one upgrade (ValuesChain!Eff says which one decides)
+ComboModes == {"reset+reuse", "reuse+rtr", "reset+rtr", "reset+reuse+rtr"}
 NoVals == <<>>
 StepsAt(n) ==
   IF n = 1 THEN {[op |-> "install", mode |-> "", vals |-> v, chart |-> 1, target |-> 0, fail |-> FALSE] : v \in V(1)}
   ELSE {[op |-> "upgrade", mode |-> m, vals |-> v, chart |-> c, target |-> 0, fail |-> f] :
            m \in Modes, v \in V(n), c \in DOMAIN Defaults, f \in BOOLEAN}
+       \cup {[op |-> "upgrade", mode |-> m, vals |-> v, chart |-> c, target |-> 0, fail |-> FALSE] :
+           m \in ComboModes, v \in V(n), c \in DOMAIN Defaults}
        \cup {[op |-> "rollback", mode |-> "", vals |-> NoVals, chart |-> 0, target |-> t, fail |-> FALSE] : t \in 1..(n - 1)}
 
 \* a state is the sequence of the indexes picked in StepSeq(1), StepSeq(2), ...
